@@ -25,11 +25,11 @@ use rustc_middle::mir::{
     AggregateKind, BasicBlock, Body, Const, Operand, Place, PlaceRef, ProjectionElem, Rvalue,
     StatementKind, TerminatorKind, UnwindAction,
 };
-use rustc_middle::ty::print::{with_no_trimmed_paths, with_resolve_crate_name};
+use rustc_middle::ty::print::{with_no_trimmed_paths, with_no_visible_paths, with_resolve_crate_name};
 
 macro_rules! np {
     ($e:expr) => {
-        with_resolve_crate_name!(with_no_trimmed_paths!($e))
+        with_no_visible_paths!(with_resolve_crate_name!(with_no_trimmed_paths!($e)))
     };
 }
 use rustc_middle::ty::{self, Instance, Ty, TyCtxt, TypingEnv};
@@ -80,7 +80,7 @@ fn canon_id(tcx: TyCtxt<'_>, did: DefId) -> String {
 }
 
 fn ty_str<'tcx>(ty: Ty<'tcx>) -> String {
-    trunc(np!(format!("{:?}", ty)), 400)
+    trunc(np!(format!("{}", ty)), 400)
 }
 
 struct Cx<'a, 'tcx> {
